@@ -91,6 +91,7 @@ func (sf *ServeHTTPFamily) Install() error {
 			{Name: "requires:rt!=nil", Formula: not(eq(rt, "0"))},
 			{Name: "requires:r!=nil", Formula: not(eq(r, "0"))},
 			{Name: "requires:r.URL!=nil", Formula: not(eq(urlOf(e, r, e.cur), "0"))},
+			{Name: "requires:middlewares!=nil", Formula: sf.middlewaresNonNil(e, rt)},
 		}
 	}
 	c.RetHook = func(e *FuncEnc, results []string) []NamedFormula {
@@ -116,7 +117,7 @@ func (sf *ServeHTTPFamily) Install() error {
 		specPath := e.D.Lit(em.Ref.NormBase() + "/" + specName)
 		specBranch := e.define("specBranch", "Bool", and(not(eq(sx("if_tag", spec), "0")), eq(path, specPath)))
 		serve := func(h, rq string) string {
-			ev := e.D.UF("ev_"+mangle("http.Handler.ServeHTTP"), []string{"Iface", "Iface", "Int"}, "Event")
+			ev := e.declareEvent("http.Handler.ServeHTTP", []string{"Iface", "Iface", "Int"})
 			return sx("tr_cons", e.entry.trace, sx(ev, h, rw, rq))
 		}
 		e.D.Const("http_NotFoundHandler", "Iface")
@@ -130,6 +131,7 @@ func (sf *ServeHTTPFamily) Install() error {
 			{Name: "ensures#spec", Props: []string{"C13", "C16"}, Formula: implies(specBranch, eq(tr, serve(spec, r)))},
 			{Name: "ensures#notfound", Props: []string{"C03", "C16"}, Formula: implies(and(not(specBranch), isNil), eq(tr, serve(notFound, r)))},
 			{Name: "ensures#nomiddleware", Props: []string{"C16", "C17"}, Formula: implies(and(not(specBranch), not(isNil), not(hp)), eq(tr, serve(h0, r)))},
+			{Name: "ensures#oneResponse", Props: []string{"C14"}, Formula: eq(sx("nResp", tr), sx("+", sx("nResp", e.entry.trace), "1"))},
 			{Name: "ensures#wrapped", Props: []string{"C16", "C03"}, Formula: implies(and(not(specBranch), not(isNil), hp), eq(tr, serve(wrapped, rprime)))},
 		}
 	}
@@ -152,6 +154,7 @@ func (sf *ServeHTTPFamily) Install() error {
 		return []NamedFormula{
 			{Name: "invariant#bounds", Props: []string{"C16", "C14"}, Formula: and(sx("<=", "(- 1)", iv.s), sx("<", iv.s, sx("sl_len", M)))},
 			{Name: "invariant#wrap", Props: []string{"C16"}, Formula: eq(hv.s, wrapTerm(e, M, mt, env.st, ip1, h0))},
+			{Name: "invariant#nonnil", Props: []string{"C14"}, Formula: not(eq(sx("if_tag", hv.s), "0"))},
 		}
 	}
 	em.W.Contracts[f.String()] = c
@@ -189,4 +192,17 @@ func (sf *ServeHTTPFamily) withPathTerm(e *FuncEnc, r, tpl string) string {
 	}
 	val := ifaceOf(e, tpl, types.Typ[types.String])
 	return sx(withCtx, r, sx(withValue, sx(ctxOf, r), keyIface, val))
+}
+
+// middlewaresNonNil: every entry of rt.Middlewares is a non-nil func.
+func (sf *ServeHTTPFamily) middlewaresNonNil(e *FuncEnc, rt string) string {
+	M, mt, ok := sf.field(e, rt, "Middlewares", e.cur)
+	if !ok {
+		return "true"
+	}
+	elem := mt.Underlying().(*types.Slice).Elem()
+	h := e.heapName(e.cur, e.D.heapKey(elem), e.D.heapSort(elem))
+	cell := sx("select", h, sx("elem", sx("sl_base", M), "qk"))
+	e.Assumed["every entry of API.Middlewares is a non-nil func"] = true
+	return fmt.Sprintf("(forall ((qk Int)) (! (=> (and (<= (sl_off %s) qk) (< qk (+ (sl_off %s) (sl_len %s)))) (not (= %s 0))) :pattern (%s)))", M, M, M, cell, cell)
 }
